@@ -2231,7 +2231,13 @@ void do_resize_cb(struct urcu_work *work)
 	struct cds_lfht *ht = resize_work->ht;
 
 	ht->flavor->register_thread();
+	/*
+	 * Stay offline (QSBR) while blocked on the resize mutex: its
+	 * holder may be waiting for a grace period.
+	 */
+	ht->flavor->thread_offline();
 	mutex_lock(&ht->resize_mutex);
+	ht->flavor->thread_online();
 	_do_cds_lfht_resize(ht);
 	mutex_unlock(&ht->resize_mutex);
 	ht->flavor->unregister_thread();
